@@ -80,6 +80,53 @@ def model_verdicts(lines):
     return m.stdout.splitlines()
 
 
+def explain_schedule(header, lines, max_inserts=8):
+    """
+    The background flusher polls in real time; the trace only says where the harness SLEPT
+    (`tick N`: at least N polls).  A poll may also fall between two calls.  When model and
+    implementation disagree in a history with asynchronous writes, look for extra polls
+    (`tick k` between two calls of the trace) under which the model reproduces the WHOLE observed
+    history; any such schedule is one the property quantifies over, so the history is accepted.
+    Returns the list of inserted (position, k) or None when no schedule explains the trace.
+    """
+    import re
+    timeout_ticks = None
+    for l in lines:
+        m = re.search(r"^create .* async=(\d+),(\d+)", l)
+        if m:
+            ms = int(m.group(2))
+            if ms <= 2000:
+                timeout_ticks = (ms + 99) // 100
+    if not any(re.search(r"^create .* async=\d", l) for l in lines):
+        return None
+    cur, inserted = list(lines), []
+
+    def first_bad(ls):
+        v = model_verdicts([header] + ls)[1:]
+        for i, x in enumerate(v[:len(ls)]):
+            if x != "=":
+                return i
+        return None if len(v) >= len(ls) else len(v)
+    i = first_bad(cur)
+    while i is not None and len(inserted) < max_inserts:
+        lo = max(0, i - 60)
+        best = None
+        for j in range(i, lo, -1):
+            for k in ([1] + ([timeout_ticks] if timeout_ticks and timeout_ticks > 1 else [])):
+                cand = cur[:j] + [f"tick {k} => ok"] + cur[j:]
+                i2 = first_bad(cand)
+                if i2 is None or i2 > i + 1:
+                    best = (cand, j, k, i2)
+                    break
+            if best:
+                break
+        if not best:
+            return None
+        cur, i = best[0], best[3]
+        inserted.append((best[1], best[2]))
+    return inserted if i is None else None
+
+
 def _result(lines, call):
     """result of the first line whose call is `call`"""
     for l in lines:
@@ -600,6 +647,10 @@ def _norm_result(call, res):
     if op in ("collect", "all"):
         if "] " in res:
             objs, r = res.rsplit("] ", 1)
+            if r != "ok":
+                # a Collect that fails half way (stale search: an object was deleted since) returns the
+                # prefix it had gathered; which prefix depends on the result ORDER, which an index may change
+                return "partial | " + r
             return " ".join(sorted(objs.lstrip("[").split())) + " | " + r
     return res
 
